@@ -47,6 +47,9 @@ type Item struct {
 	// NonNilPointers: `p == nil` on a pointer to a struct translates to false: the translation
 	// describes the function on non-nil arguments only (state that where you use it).
 	NonNilPointers bool `json:"nonnil_pointers"`
+	// ASCIIStrings: strings.ToLower / strings.EqualFold translate as their ASCII restrictions
+	// (exact only when every octet of the input is below 128 — state that where you use it).
+	ASCIIStrings bool `json:"ascii_strings"`
 }
 
 type Spec struct {
